@@ -35,11 +35,12 @@ std::vector<double> alphabet(double p, bool big) {
 
 struct Expect { long double mean, var; long double sumsq; };
 Expect reference(const std::deque<double>& win, double p, size_t W) {
-  long double M = mref(p), s = 0, s2 = 0;
-  for (double v : win) { long double t = truncl((long double)v * M) / M; s += t; s2 += t * t; }
+  // exact: the truncated samples are integers K_i / M; sums are formed in 128-bit integers, one division at the end
+  long double M = mref(p); __int128 s = 0, s2 = 0;
+  for (double v : win) { __int128 k = (__int128)truncl((long double)v * M); s += k; s2 += k * k; }
   Expect e; size_t n = win.size();
-  e.mean = n ? s / n : 0; e.sumsq = s2;
-  e.var = (n >= 2 && W >= 2) ? (s2 - n * e.mean * e.mean) / (long double)(W - 1) : 0;
+  e.mean = n ? (long double)s / (M * n) : 0; e.sumsq = (long double)s2 / (M * M);
+  e.var = (n >= 2 && W >= 2) ? (long double)((__int128)n * s2 - s * s) / (M * M * (long double)n * (long double)(W - 1)) : 0;
   return e;
 }
 
@@ -146,13 +147,14 @@ template <class A> void s1(vf::Ctx& c, size_t W, double p, bool isVar) {
 
 // ---- S2 -------------------------------------------------------------------------------------------------------
 struct Dev { int pos; int kind; };   // kind 0: reset before update pos, 1: outlier value at pos
-template <class A> void run_script(vf::Ctx& c, size_t W, double p, bool isVar, const std::vector<Dev>& devs, bool checkEvery) {
+template <class A> void run_script(vf::Ctx& c, size_t W, double p, bool isVar, const std::vector<Dev>& devs, bool checkEvery, int script = 0) {
   std::vector<double> alpha = alphabet(p, false);
   A a(p, W); Model m{W};
   size_t len = 10 * W;
   std::vector<int> hist;
   for (size_t i = 0; i < len; ++i) {
     double v = alpha[i % alpha.size()] + (double)((i * 7) % 5) * p;   // cyclic default script
+    if (script == 1) v = ((i % 2) ? -1.0 : 1.0) * (9e7 + (double)((i * 7) % 5) + 0.5) * p;   // wide script: alternating sign near the |v|/precision = 1e8 bound
     bool dev = false;
     for (auto& d : devs) if ((size_t)d.pos == i) {
       dev = true;
@@ -163,7 +165,7 @@ template <class A> void run_script(vf::Ctx& c, size_t W, double p, bool isVar, c
     c.transitions();
     if (checkEvery || dev || i + 1 == len || (i % W) == W - 1) {
       auto params = [&]() {
-        vf::JO o; o.str("explorer", "S2").str("object", isVar ? "OnlineVariance" : "OnlineAverage").u("window", W).num("precision", p).u("step", i);
+        vf::JO o; o.str("explorer", "S2").str("object", isVar ? "OnlineVariance" : "OnlineAverage").u("window", W).num("precision", p).str("script", script ? "alternating +-9e7*precision" : "cyclic small values").u("step", i);
         std::string ds = "["; for (size_t k = 0; k < devs.size(); ++k) { if (k) ds += ","; ds += vf::JO().i("pos", devs[k].pos).str("kind", devs[k].kind ? "outlier" : "reset").done(); } ds += "]";
         o.raw("deviations", ds); return o.done();
       };
@@ -176,10 +178,11 @@ template <class A> void run_script(vf::Ctx& c, size_t W, double p, bool isVar, c
 
 template <class A> void s2(vf::Ctx& c, size_t W, double p, bool isVar, int bound, int firstPos) {
   // firstPos < 0: bound-0 run; otherwise all deviation sets whose first deviation is at firstPos
-  if (firstPos < 0) { run_script<A>(c, W, p, isVar, {}, true); return; }
+  if (firstPos < 0) { run_script<A>(c, W, p, isVar, {}, true); run_script<A>(c, W, p, isVar, {}, true, 1); return; }
   int len = (int)(10 * W);
   for (int k1 = 0; k1 < 2; ++k1) {
     run_script<A>(c, W, p, isVar, {{firstPos, k1}}, W <= 8);
+    if (k1 == 0) run_script<A>(c, W, p, isVar, {{firstPos, 0}}, W <= 8, 1);   // a reset anywhere in the wide script
     if (bound >= 2)
       for (int p2 = firstPos + 1; p2 < len; ++p2)
         for (int k2 = 0; k2 < 2; ++k2) run_script<A>(c, W, p, isVar, {{firstPos, k1}, {p2, k2}}, false);
@@ -275,6 +278,7 @@ std::string vf_describe(const std::string& tier) {
   o.vec("precisions", std::vector<double>(kPrec, kPrec + kNPrec));
   o.str("S1", th ? "windows 1..5 (variance 2..5)" : "windows 1..4 (variance 2..4)");
   o.str("S1_ops", "update(v) for v in {0.5,-1.5,7.5,-1234.5,99999999.5}*precision, reset(); BFS to fixpoint over (index, data, sums; model window, count)");
+  o.str("S2_scripts", "cyclic small values; alternating-sign values of magnitude 9e7*precision (bound 0 and a reset at every position)");
   o.str("S2", th ? "every window 1..64, 10*W updates, deviation bound 1 (reset or outlier at any position), bound 2 for W<=8, W=12, W=64"
                  : "every window 1..64 bound 0; bound 1 for W<=8,16,63,64 (all precisions) and all W at precisions 1e-3,1e-6; bound 2 for W<=8");
   o.str("S3", "ring capacities 1..16, append(fresh tag)/clear(), BFS to fixpoint, states canonicalised by relative age");
